@@ -78,8 +78,8 @@ static void extern_products(Ctx &c, int reps, double alpha) {
     IntPolynomial *m = new_IntPolynomial(N);
     std::vector<U> phc, want, ph1, ph2, ph3; std::vector<int32_t> phc_i(N);
     for (int rep = 0; rep < reps; rep++) {
-        int mc = rep % 5, cc = (rep / 5) % 3;
-        bool noisy = alpha > 0 && (rep % 2 == 1);
+        int mc = rep < 5 ? rep : (int) rng.below(5), cc = (int) rng.below(3);
+        bool noisy = alpha > 0 && rng.coin();
         double l1 = fill_message(m, mc);
         if (noisy) { VH_OP("tGswSymEncrypt:%s", c.cfg.c_str()); tGswSymEncrypt(A, m, alpha, c.key); }
         else build_noiseless(c, A, m);
@@ -217,7 +217,8 @@ static void blind_rotations(Ctx &c, int n, int reps, double alpha) {
     std::vector<int32_t> bara(n);
     std::vector<U> ph0, ph1, ph2, want; std::vector<int32_t> ph0_i(N);
     for (int rep = 0; rep < reps; rep++) {
-        int ec = rep % 5, cc = (rep / 5) % 3;
+        int ec = rep < 5 ? rep : (int) rng.below(5), cc = (int) rng.below(3);   // classes drawn independently of the counter that selects the variants
+        bool coef_variant = n <= 4 || rep < 5 || rng.below(3) == 0;
         int64_t S = 0; int active = 0;
         for (int i = 0; i < n; i++) {
             int a = ec == 0 ? 0 : ec == 1 ? 2 * N - 1 : ec == 2 ? (i == rep % n ? 1 + (int) rng.below(2 * N - 1) : 0) : ec == 3 ? (int) rng.below(2 * N) : (rng.coin() ? 0 : 2 * N - 1);
@@ -235,7 +236,7 @@ static void blind_rotations(Ctx &c, int n, int reps, double alpha) {
         tfhe_blindRotate_FFT(acc1, bkF, bara.data(), n, c.tg);
         ref_tlwe_phase(ph1, acc1, c.key->key, N, c.k);
         check_phase(c, "tfhe_blindRotate_FFT", ph1, want, bound, ctx);
-        if (rep % 3 == 0 || n <= 4) {
+        if (coef_variant) {
             VH_OP("tfhe_blindRotate:%s:n=%d", c.cfg.c_str(), n);
             tLweCopy(acc2, acc0, c.tl);
             tfhe_blindRotate(acc2, bk, bara.data(), n, c.tg);
